@@ -15,13 +15,15 @@ from props.monitors import TrackerShadow
 from props.synthpop import synthetic
 
 RULE = (
-    "every add / remove / coalesce / reset the destination handler issues on its LostSegmentTracker in the grid (45%), "
-    "bounded-fault (20%), chaos (10%) and synthetic-peer (25%) populations, acknowledged mode; an operation is judged iff "
+    "every add / remove / coalesce / reset the destination handler issues on its LostSegmentTracker in the grid (36%), "
+    "bounded-fault (16%), chaos (8%) and synthetic-peer (20%) populations, acknowledged mode, plus (20%) tape-drawn "
+    "operation histories issued directly on a tracker object over offsets 0..N (N in 6..40, 4..31 operations, mostly inside "
+    "the preconditions) - histories the handler never produces; an operation is judged iff "
     "it satisfies the property's preconditions (addition non-empty and disjoint from what is tracked; removal empty, inside "
     "one tracked range, touching none, or straddling the end of a range), otherwise it is counted (probe "
     "*_outside_preconditions) and the shadow is re-synchronised; non-trivial = population rule and at least one judged "
     "operation; distinct = interleaving signature. NOT reached: the 'exhaustive for small N and depth' part of the "
-    "quantifier and operation histories no PDU sequence can induce (DESIGN section 6)"
+    "quantifier (DESIGN section 6)"
 )
 ASSUMPTIONS = [
     "the handler ignores the return value of remove_lost_segment; the wrapper judges it nevertheless",
@@ -48,8 +50,119 @@ def _finish(ctx):
         w.close()
 
 
+def direct(t):
+    """Operation histories issued directly on a LostSegmentTracker object (no handler, no schedule): the
+    destination handler only ever produces a sub-language of the histories the property quantifies over (it
+    never adds a range into a hole it has removed, never removes ahead of every tracked range, ...). The tape
+    draws add / remove / coalesce / reset operations over offsets 0..N, mostly inside the preconditions; the
+    same wrapper and shadow judge them."""
+    from cfdpsim import env
+    from cfdpsim.runner import RunResult
+    from cfdpsim.world import Violation, hash_sig
+    import hashlib
+
+    from cfdppy.handler.dest import LostSegmentTracker
+
+    class W:  # the minimum of a world the monitor needs
+        def __init__(self):
+            self.violations, self.probes, self.log = [], {}, []
+
+        def violate(self, clause, locus, detail=""):
+            self.violations.append(Violation(clause, locus, detail))
+            self.log.append(f"  !! VIOLATION {clause} | {locus} | {detail}")
+
+        def probe(self, n, k=1):
+            self.probes[n] = self.probes.get(n, 0) + k
+
+    w = W()
+    mon = TrackerShadow(w)
+    try:
+        tr = LostSegmentTracker()
+        N = [12, 6, 24, 40][t.choose(4, "N")]
+        n_ops = 4 + t.choose(28, "n ops")
+        sig = []
+        for i in range(n_ops):
+            op = t.weighted([6, 6, 2, 1], "op")
+            items = list(tr.lost_segments.items())
+            if op == 0:
+                # addition: mostly into free space (precondition), sometimes anywhere
+                a = t.choose(N, "add a")
+                b = a + 1 + t.choose(max(N // 3, 1), "add len")
+                if t.choose(4, "add anywhere") != 3:
+                    free = True
+                    for (x, y) in items:
+                        if x < b and a < y:
+                            free = False
+                    if not free:
+                        # move into the first gap that fits, if any
+                        edges = [0] + [v for xy in sorted(items) for v in xy] + [N + N // 3 + 2]
+                        gaps = [(edges[j], edges[j + 1]) for j in range(0, len(edges), 2) if edges[j + 1] - edges[j] >= 1]
+                        if not gaps:
+                            continue
+                        g = gaps[t.choose(len(gaps), "gap")]
+                        a = g[0] + t.choose(g[1] - g[0], "gap a")
+                        b = a + 1 + t.choose(g[1] - a, "gap len")
+                        b = min(b, g[1])
+                desc = f"add({a},{b})"
+                try:
+                    tr.add_lost_segment((a, b))
+                except Exception as e:  # noqa: BLE001
+                    w.violate("C18.exception", f"add raises {type(e).__name__}", desc)
+            elif op == 1:
+                form = t.weighted([5, 2, 2, 1, 1], "remove form")
+                if form == 0 and items:
+                    x, y = items[t.choose(len(items), "in range")]
+                    a = x + t.choose(y - x, "ra")
+                    b = a + 1 + t.choose(y - a, "rlen")
+                    b = min(b, y)
+                elif form == 2 and items:
+                    x, y = items[t.choose(len(items), "straddle range")]
+                    a = x + t.choose(y - x, "sa")
+                    b = y + 1 + t.choose(3, "sover")
+                elif form == 3:
+                    a = t.choose(N, "za")
+                    b = a
+                else:
+                    a = t.choose(N + 4, "ra any")
+                    b = a + 1 + t.choose(max(N // 3, 1), "rlen any")
+                desc = f"remove({a},{b})"
+                try:
+                    tr.remove_lost_segment((a, b))
+                except ValueError:
+                    desc += " ValueError"
+                except Exception as e:  # noqa: BLE001
+                    pass
+            elif op == 2:
+                desc = "coalesce"
+                tr.coalesce_lost_segments()
+            else:
+                desc = "reset"
+                tr.reset()
+            sig.append(desc.split("(")[0])
+            w.log.append(f"#{i} {desc} -> {list(tr.lost_segments.items())}")
+        r = RunResult()
+        r.violations = w.violations
+        judged = sum(v for k, v in w.probes.items() if "judged" in k)
+        r.nontrivial = judged >= 4
+        r.sig = hash_sig(w.log)
+        r.nstates = len(set(sig))
+        r.probes = w.probes
+        r.probes["C18.direct_history"] = 1
+        r.events = n_ops
+        r.calls = n_ops
+        r.log = w.log
+        r.digest = hashlib.sha256("\n".join(w.log).encode()).hexdigest()[:16]
+        r.cfg = {"N": N, "ops": n_ops}
+        r.pop = "direct"
+        return r
+    finally:
+        TrackerShadow.active = None
+
+
 def run_one(t):
-    pop = t.weighted([9, 4, 2, 5], "population")
+    pop = t.weighted([9, 4, 2, 5, 5], "population")
+    if pop == 4:
+        return direct(t)
     if pop == 0:
         return _finish(grid(t, attach))
     if pop == 3:
